@@ -41,7 +41,7 @@ class SetupPyWriter(DependencyWriter):
         diff = create_diff_from_tree(input_tree, output_tree)
 
         if not dry_run:
-            with open(self.path, "w", encoding="utf-8") as f:
+            with open(self.path, "w", encoding="utf-8", newline="") as f:
                 f.write(output_tree.code)
 
         changes = self.build_changes(
@@ -54,7 +54,8 @@ class SetupPyWriter(DependencyWriter):
         )
 
     def _parse_file(self):
-        with open(self.path, encoding="utf-8") as f:
+        # newline="": do not translate line endings, the file keeps its own
+        with open(self.path, encoding="utf-8", newline="") as f:
             return cst.parse_module(f.read())
 
 
